@@ -248,7 +248,8 @@ def classify(c):
 
 
 # ---- command-line glue: a multi-alignment Phylip input must be treated as its alignments one by one (`detmulti`) ----
-MULTI_CMDS = [['reformat', 'phylip'], ['reformat', 'nexus'], ['reformat', 'phylip', '--output-strict']]
+MULTI_CMDS = [['reformat', 'phylip'], ['reformat', 'nexus'], ['reformat', 'phylip', '--output-strict'],
+              ['reformat', 'paml']]
 
 
 def gen(rng, tier):
